@@ -777,6 +777,9 @@ func ruleWarcClose(r *core.Reporter) {
 		return
 	}
 	warcClient := "github.com/CorentinB/warc.CustomHTTPClient"
+	if warcCloseCollectionForm(r, stop, wgWait, warcClient) {
+		return
+	}
 	for _, field := range []string{"Client", "ClientWithProxy"} {
 		isClose := func(in ssa.Instruction) bool {
 			if !ir.MethodCall(in, warcClient, "Close") {
@@ -1387,4 +1390,133 @@ func isGoTarget(parent, a *ssa.Function) bool {
 		})
 	}
 	return is
+}
+
+// warcCloseCollectionForm: archiver.Stop handles the clients as the collection GetClients() returns — that function
+// yields every non-nil client field — and, after the worker wait, a loop over the whole collection waits for the
+// writers and a later loop over the whole collection closes them. Returns false when Stop is not written this way.
+func warcCloseCollectionForm(r *core.Reporter, stop *ssa.Function, wgWait ssa.Instruction, warcClient string) bool {
+	p := r.P
+	gcf := p.Func(rel(pkgArch), "GetClients")
+	if gcf == nil {
+		return false
+	}
+	var gc *ssa.Call
+	allInstrs(stop, func(in ssa.Instruction) {
+		if c, ok := in.(*ssa.Call); ok && ir.CalleeOf(c.Common()) == gcf {
+			gc = c
+		}
+	})
+	if gc == nil {
+		return false
+	}
+	// no direct Close on the fields besides the loops
+	direct := false
+	allInstrs(stop, func(in ssa.Instruction) {
+		if ir.MethodCall(in, warcClient, "Close") {
+			if _, ok := clientFieldLoad(ir.AsCall(in).Args[0]); ok {
+				direct = true
+			}
+		}
+	})
+	if direct {
+		return false
+	}
+	r.Analysed(gcf)
+	// GetClients: both fields are candidates, only nil ones are left out
+	fields := map[string]bool{}
+	allInstrs(gcf, func(in ssa.Instruction) {
+		if u, ok := in.(*ssa.UnOp); ok {
+			if f, okf := clientFieldLoad(u); okf {
+				fields[f] = true
+			}
+		}
+	})
+	var app ssa.Instruction
+	allInstrs(gcf, func(in ssa.Instruction) {
+		if c, ok := in.(*ssa.Call); ok && ir.CallName(c.Common()) == "builtin.append" {
+			app = in
+		}
+	})
+	okGC := fields["Client"] && fields["ClientWithProxy"] && app != nil && loopCoversAll(gcf, app)
+	if okGC {
+		// the only condition on the append is the nil test of the element
+		for _, ii := range ir.Ifs(gcf) {
+			for _, t := range []bool{true, false} {
+				if isLoopExitEdge(ii, t) || !ir.OnlyVia(ir.Entry(gcf), app, ii.If.Block(), ii.EdgeWhen(t)) {
+					continue
+				}
+				a := ii.Atom
+				isNilTest := a.V == nil && a.Op == token.EQL && (ir.IsNilConst(a.X) || ir.IsNilConst(a.Y))
+				isLoopTest := a.V == nil && a.Op == token.LSS
+				if !isNilTest && !isLoopTest {
+					okGC = false
+				}
+			}
+		}
+	}
+	if !okGC {
+		r.Violated("archiver.GetClients", fnPos(p, gcf), "GetClients does not return every existing WARC client (both fields, nil ones left out): Stop would leave one open")
+		return true
+	}
+	r.Held("archiver.GetClients", 2, "returns every non-nil client")
+	// loops over the collection
+	var waitLoop, closeLoop *ir.IfInfo
+	var closeCall ssa.Instruction
+	allInstrs(stop, func(in ssa.Instruction) {
+		c := ir.AsCall(in)
+		if c == nil || len(c.Args) == 0 {
+			return
+		}
+		f := ir.CalleeOf(c)
+		if f == nil {
+			return
+		}
+		elemOf := func(v ssa.Value) bool {
+			// v is (a field of) an element of the collection
+			pth := ir.Path(v)
+			return strings.Contains(pth, "GetClients()[")
+		}
+		switch {
+		case ir.MethodCall(in, warcClient, "Close") && elemOf(c.Args[0]):
+			if l, ok := loopAround(stop, in); ok && loopCoversAll(stop, in) {
+				closeLoop, closeCall = &l, in
+			}
+		case f.Name() == "Wait" && elemOf(c.Args[0]) && strings.Contains(ir.Path(c.Args[0]), ".WaitGroup"):
+			if l, ok := loopAround(stop, in); ok && loopCoversAll(stop, in) {
+				waitLoop = &l
+			}
+		}
+	})
+	for _, field := range []string{"Client", "ClientWithProxy"} {
+		key := "archiver.Stop/" + field
+		if closeLoop == nil {
+			r.Violated(key+"/close", fnPos(p, stop), "archiver.Stop does not close every client GetClients() returns")
+			continue
+		}
+		if ret, bad := ir.PathExists([]ir.Pt{ir.After(wgWait)}, ir.Opts{Stop: func(in ssa.Instruction) bool { return in == ssa.Instruction(closeLoop.If) }}, ir.IsExit); bad {
+			r.Violated(key+"/close", p.InstrPos(ret), "a path through archiver.Stop returns without the loop that closes the WARC clients: their files stay .open")
+		} else {
+			r.HeldAt(key+"/close", p.InstrPos(closeCall), 1, "closed by the loop over GetClients() on every path")
+		}
+		if waitLoop == nil {
+			r.Violated(key+"/wait-before-close", p.InstrPos(closeCall), "the clients are closed without waiting for their WARC writers (records in flight are lost)")
+			continue
+		}
+		res := ir.Reach([]ir.Pt{ir.After(wgWait)}, ir.Opts{Stop: func(in ssa.Instruction) bool { return in == ssa.Instruction(waitLoop.If) }})
+		// the close loop is entered only after the wait loop has run to its end
+		early := res.Reached[closeLoop.If] || res.Stopped[closeLoop.If]
+		if !early {
+			fromBody := ir.Reach([]ir.Pt{{B: waitLoop.If.Block().Succs[waitLoop.EdgeWhen(true)], I: 0}}, ir.Opts{Stop: func(in ssa.Instruction) bool { return in == ssa.Instruction(waitLoop.If) }})
+			if fromBody.Reached[closeLoop.If] || fromBody.Stopped[closeLoop.If] {
+				early = true
+			}
+		}
+		if early {
+			r.Violated(key+"/wait-before-close", p.InstrPos(closeCall), "a client can be closed before every writer has been waited for")
+		} else {
+			r.Held(key+"/wait-before-close", 1, "the wait loop over all clients completes before the close loop starts")
+		}
+	}
+	return true
 }
